@@ -28,7 +28,7 @@ THEOREMS = [
     "C06.roundtrip",
     "C06.roundtrip_drops_none_default",
     "C06.emit_ok_iff",
-    "C06.emit_raises_on_single_member_literal",
+    "C06.emits",
     "C06.tables_cover_domain",
 ]
 VT = os.environ.get("CDD_VT_PYTHON", "python3-vt")
@@ -456,13 +456,16 @@ def P(t, doc=None, default=None, none_as="NoneStr"):
 
 
 WITNESSES = [
-    ("C06-single-member-literal", {"name": "F", "doc": "", "params": [["a", P(lit(["alpha"]))]], "returns": None}),
     ("C06-pattern-unanchored", {"name": "F", "doc": "", "params": [["a", P(lit(["alpha", "beta"]))]], "returns": None}),
     ("C06-none-default-dropped", {"name": "F", "doc": "", "params": [["a", P(base("int", True), None, ["n"])]], "returns": None}),
     ("C06-return-doc-wrapped-inside-word", {"name": "F", "doc": "", "params": [], "returns": {"typ": base("int"), "doc": "a" * 80 + " bbbbbbbb-cccccccc"}}),
 ]
 FIXED = [
     {"name": "F", "doc": "", "params": [], "returns": None},
+    # one-member Literals: the emitter raised AttributeError on these before the fix: commit (C06-single-member-literal)
+    {"name": "F", "doc": "", "params": [["a", P(lit(["alpha"]))]], "returns": None},
+    {"name": "F", "doc": "One.", "params": [["a", P(lit(["alpha"], True), "d", ["s", "alpha"])], ["b", P(lit(["x_1"]), None, ["s", "x_1"])]],
+     "returns": {"typ": lit(["only"]), "doc": None}},
     {"name": None, "doc": "Summary line.", "params": [["a", P(base("int"), "the a", ["i", 5])], ["b", P(base("str", True), "bb")],
                                                       ["c", P(lit(["x_1", "alpha", "b2"]), None, ["s", "alpha"])], ["d", P(lit(["beta", "alpha"], True))]],
      "returns": {"typ": base("int"), "doc": "the result"}},
